@@ -217,6 +217,9 @@ func (e *emitter) expr(x ast.Expr) string {
 			if v == e.fi.opaqueRecv {
 				e.g.fail(t, "opaque receiver used as a value")
 			}
+			if e.g.nilable[v] && !e.rawOpt {
+				return "((" + e.name(v) + ").getD [])"
+			}
 			return e.name(v)
 		}
 		e.g.fail(t, "identifier %s", t.Name)
@@ -278,6 +281,15 @@ func (e *emitter) expr(x ast.Expr) string {
 				}
 				return "(" + e.expr(t.X) + ").isNone"
 			}
+			if o, el := e.g.pathObj(e.info, t.X); o != nil && ((el && e.g.elemNilable[o]) || (!el && e.g.nilable[o])) {
+				e.rawOpt = true
+				raw := e.expr(t.X)
+				e.rawOpt = false
+				if t.Op == token.NEQ {
+					return "(" + raw + ").isSome"
+				}
+				return "(" + raw + ").isNone"
+			}
 			e.g.fail(t, "comparison of %s with nil", xt)
 		}
 		if t.Op == token.SHL || t.Op == token.SHR {
@@ -288,10 +300,16 @@ func (e *emitter) expr(x ast.Expr) string {
 		ys := e.expr(t.Y)
 		return e.binop(t, t.Op, xs, ys, xt, rt, t.Y)
 	case *ast.IndexExpr:
+		raw := e.rawOpt
+		e.rawOpt = false
 		xs := e.expr(t.X)
 		is := e.indexExpr(t.Index)
+		e.rawOpt = raw
 		v := e.fresh("t")
 		e.line("let %s ← Go.idx %s %s", v, xs, is)
+		if o, el := e.g.pathObj(e.info, t.X); o != nil && !el && e.g.elemNilable[o] && !raw {
+			return "((" + v + ").getD [])"
+		}
 		return v
 	case *ast.SliceExpr:
 		if t.Slice3 {
@@ -313,7 +331,14 @@ func (e *emitter) expr(x ast.Expr) string {
 			if droppedField(sel.Obj().Type()) {
 				e.g.fail(t, "field %s of a dropped type", t.Sel.Name)
 			}
-			return e.expr(t.X) + "." + leanField(t.Sel.Name)
+			raw := e.rawOpt
+			e.rawOpt = false
+			base := e.expr(t.X)
+			e.rawOpt = raw
+			if e.g.nilable[sel.Obj()] && !raw {
+				return "((" + base + "." + leanField(t.Sel.Name) + ").getD [])"
+			}
+			return base + "." + leanField(t.Sel.Name)
 		}
 		e.g.fail(t, "selector")
 	case *ast.CompositeLit:
@@ -501,6 +526,10 @@ func (e *emitter) assignTo(l ast.Expr, val string) {
 		if e.fi.opaqueRecv != nil && v == e.fi.opaqueRecv {
 			e.g.fail(t, "assignment to opaque receiver")
 		}
+		if e.g.nilable[v] && !e.rawAssign {
+			val = "(some " + val + ")"
+		}
+		e.rawAssign = false
 		e.line("let %s := %s", e.name(v), val)
 	case *ast.SelectorExpr:
 		sel := e.info.Selections[t]
@@ -510,9 +539,21 @@ func (e *emitter) assignTo(l ast.Expr, val string) {
 		if id, ok := t.X.(*ast.Ident); ok && e.fi.opaqueRecv != nil && e.info.Uses[id] == e.fi.opaqueRecv {
 			e.g.fail(t, "assignment to a field of an opaque receiver")
 		}
+		if e.g.nilable[sel.Obj()] && !e.rawAssign {
+			val = "(some " + val + ")"
+		}
+		e.rawAssign = false
 		base := e.pureRead(t.X)
-		e.assignTo(t.X, fmt.Sprintf("{ %s with %s := %s }", base, leanField(t.Sel.Name), val))
+		e.rawAssign = true // the enclosing structure value is written back as it is
+		if _, isVar := rootVarOf(t.X); !isVar {
+			e.rawAssign = false
+		}
+		e.assignToRaw(t.X, fmt.Sprintf("{ %s with %s := %s }", base, leanField(t.Sel.Name), val))
 	case *ast.IndexExpr:
+		if o, el := e.g.pathObj(e.info, t.X); o != nil && !el && e.g.elemNilable[o] && !e.rawAssign {
+			val = "(some " + val + ")"
+		}
+		e.rawAssign = false
 		base := e.pureRead(t.X)
 		is := e.indexExpr(t.Index)
 		v := e.fresh("t")
@@ -569,7 +610,13 @@ func (e *emitter) assignStmt(s *ast.AssignStmt) {
 	// a call on the right with several results and/or write-backs
 	if len(s.Rhs) == 1 {
 		if call, ok := unparen(s.Rhs[0]).(*ast.CallExpr); ok && !e.info.Types[call.Fun].IsType() {
+			if len(s.Lhs) == 1 {
+				if o, el := e.g.pathObj(e.info, s.Lhs[0]); o != nil && !el && e.g.elemNilable[o] {
+					e.makeNone = true
+				}
+			}
 			vals := e.call(call, len(s.Lhs))
+			e.makeNone = false
 			for i, l := range s.Lhs {
 				e.assignTo(l, vals[i])
 			}
@@ -580,7 +627,20 @@ func (e *emitter) assignStmt(s *ast.AssignStmt) {
 		e.g.fail(s, "assignment count mismatch")
 	}
 	if len(s.Lhs) == 1 {
-		e.assignTo(s.Lhs[0], e.argExpr(s.Rhs[0], e.typeOf(s.Lhs[0])))
+		if id, ok := s.Rhs[0].(*ast.Ident); ok && id.Name == "nil" {
+			if o, el := e.g.pathObj(e.info, s.Lhs[0]); o != nil && ((el && e.g.elemNilable[o]) || (!el && e.g.nilable[o])) {
+				e.rawAssign = true
+				e.assignTo(s.Lhs[0], "none")
+				return
+			}
+		}
+		// make([]T, n) for a slice whose elements can be nil: the elements start out nil
+		if o, el := e.g.pathObj(e.info, s.Lhs[0]); o != nil && !el && e.g.elemNilable[o] {
+			e.makeNone = true
+		}
+		val := e.argExpr(s.Rhs[0], e.typeOf(s.Lhs[0]))
+		e.makeNone = false
+		e.assignTo(s.Lhs[0], val)
 		return
 	}
 	var tmps []string
@@ -815,7 +875,11 @@ func (e *emitter) callLib(call *ast.CallExpr, lib string, want int) []string {
 		}
 		n := e.indexExpr(call.Args[1])
 		v := e.fresh("t")
-		e.line("let %s ← Go.makeList %s %s", v, e.g.zero(call, sl.Elem()), n)
+		z := e.g.zero(call, sl.Elem())
+		if e.makeNone {
+			z = "none"
+		}
+		e.line("let %s ← Go.makeList %s %s", v, z, n)
 		return []string{v}
 	case "copy":
 		d, s := arg(0), arg(1)
@@ -862,4 +926,16 @@ func unparen(x ast.Expr) ast.Expr {
 		}
 		x = p.X
 	}
+}
+
+// assignToRaw assigns a value that already has the target's representation
+func (e *emitter) assignToRaw(l ast.Expr, val string) {
+	e.rawAssign = true
+	e.assignTo(l, val)
+	e.rawAssign = false
+}
+
+func rootVarOf(x ast.Expr) (ast.Expr, bool) {
+	_, ok := x.(*ast.Ident)
+	return x, ok
 }
